@@ -173,6 +173,10 @@ func objType(obj ssa.Value) types.Type {
 				return types.NewArray(sl.Elem(), 1)
 			}
 		}
+		// a call of an allocation wrapper: the object it returns
+		if pt, ok := types.Unalias(x.Type()).Underlying().(*types.Pointer); ok && x.Call.StaticCallee() != nil {
+			return pt.Elem()
+		}
 	}
 	return nil
 }
@@ -251,18 +255,21 @@ type provEngine struct {
 	reachMemo map[objField][]ssa.Value
 	deepMemo  map[objField]rootSet
 	noSlot    bool
-	callers   map[*ssa.Function][]callerSite
-	ret       map[*ssa.Function][]rootSet
-	mcSites   map[*ssa.Function][]*ssa.MakeClosure
-	callees   map[ssa.Instruction][]*ssa.Function // analysed callees of a call site
-	foreign   map[ssa.Instruction]bool            // the site has a callee outside the module, or none was resolved
-	ptrful    map[types.Type]bool
-	simple    map[*ssa.Alloc]int8
-	cellAt    map[ssa.Instruction][]ssa.Value
-	cellFrom  map[cellFromKey][]ssa.Value
-	errorT    types.Type
-	changed   bool
-	Rounds    int
+	// wrappers: module functions that allocate one object, fill its fields and return it (newTensor(dims, data)); a call
+	// to one is an allocation site of its own - one abstract object per CALL, not one per helper
+	wrappers map[*ssa.Function]ssa.Value
+	callers  map[*ssa.Function][]callerSite
+	ret      map[*ssa.Function][]rootSet
+	mcSites  map[*ssa.Function][]*ssa.MakeClosure
+	callees  map[ssa.Instruction][]*ssa.Function // analysed callees of a call site
+	foreign  map[ssa.Instruction]bool            // the site has a callee outside the module, or none was resolved
+	ptrful   map[types.Type]bool
+	simple   map[*ssa.Alloc]int8
+	cellAt   map[ssa.Instruction][]ssa.Value
+	cellFrom map[cellFromKey][]ssa.Value
+	errorT   types.Type
+	changed  bool
+	Rounds   int
 }
 
 type cellFromKey struct {
@@ -917,6 +924,12 @@ func (e *provEngine) callResult(call *ssa.Call, k int, t types.Type) rootSet {
 			}
 		}
 	}
+	if k == 0 {
+		if w := call.Call.StaticCallee(); w != nil && e.wrappers[w] != nil && !call.Call.IsInvoke() {
+			out.add(pRoot{kind: rkLocal, obj: call, field: noField})
+			return out
+		}
+	}
 	for _, cf := range e.callees[call] {
 		if k < len(e.ret[cf]) {
 			e.subst(e.ret[cf][k], call, cf, out)
@@ -1207,7 +1220,144 @@ func (e *provEngine) callEffects(site ssa.CallInstruction) {
 	}
 }
 
+// findWrappers: functions whose every return hands back the same object X - an allocation of theirs (or the result of
+// another wrapper) that is otherwise only used to address its fields.
+func (e *provEngine) findWrappers() {
+	e.wrappers = map[*ssa.Function]ssa.Value{}
+	strip := func(v ssa.Value) ssa.Value {
+		for {
+			switch x := v.(type) {
+			case *ssa.MakeInterface:
+				v = x.X
+			case *ssa.ChangeType:
+				v = x.X
+			default:
+				return v
+			}
+		}
+	}
+	var onlyFieldsAndReturn func(v ssa.Value, depth int) bool
+	onlyFieldsAndReturn = func(v ssa.Value, depth int) bool {
+		refs := v.Referrers()
+		if refs == nil || depth > 3 {
+			return false
+		}
+		for _, ref := range *refs {
+			switch r := ref.(type) {
+			case *ssa.FieldAddr:
+				if r.X != v {
+					return false
+				}
+				fr := r.Referrers()
+				if fr == nil {
+					return false
+				}
+				for _, u := range *fr {
+					st, ok := u.(*ssa.Store)
+					if _, isDbg := u.(*ssa.DebugRef); isDbg {
+						continue
+					}
+					if !ok || st.Addr != r || st.Val == v {
+						return false
+					}
+				}
+			case *ssa.Return, *ssa.DebugRef:
+			case *ssa.MakeInterface:
+				if !onlyFieldsAndReturn(r, depth+1) {
+					return false
+				}
+			case *ssa.ChangeType:
+				if !onlyFieldsAndReturn(r, depth+1) {
+					return false
+				}
+			default:
+				return false
+			}
+		}
+		return true
+	}
+	for round := 0; round < 4; round++ {
+		changed := false
+		for _, fn := range e.fns {
+			if e.wrappers[fn] != nil || len(fn.Blocks) == 0 || fn.Signature.Results().Len() != 1 || len(fn.FreeVars) > 0 {
+				continue
+			}
+			if _, ok := types.Unalias(fn.Signature.Results().At(0).Type()).Underlying().(*types.Pointer); !ok {
+				continue
+			}
+			var x ssa.Value
+			ok := true
+			nret := 0
+			for _, b := range fn.Blocks {
+				for _, in := range b.Instrs {
+					ret, isRet := in.(*ssa.Return)
+					if !isRet {
+						continue
+					}
+					nret++
+					v := strip(ret.Results[0])
+					if x == nil {
+						x = v
+					} else if x != v {
+						ok = false
+					}
+				}
+			}
+			if !ok || x == nil || nret == 0 {
+				continue
+			}
+			switch a := x.(type) {
+			case *ssa.Alloc:
+				if !a.Heap {
+					continue
+				}
+			case *ssa.Call:
+				w := a.Call.StaticCallee()
+				if w == nil || a.Call.IsInvoke() || e.wrappers[w] == nil || w == fn {
+					continue
+				}
+			default:
+				continue
+			}
+			if !onlyFieldsAndReturn(x, 0) {
+				continue
+			}
+			e.wrappers[fn] = x
+			changed = true
+		}
+		if !changed {
+			break
+		}
+	}
+}
+
+// wrapperTransfer: what the wrapper stored into its object, in the caller's terms, becomes the contents of the object
+// this call stands for.
+func (e *provEngine) wrapperTransfer(call *ssa.Call) {
+	w := call.Call.StaticCallee()
+	if w == nil || call.Call.IsInvoke() {
+		return
+	}
+	x := e.wrappers[w]
+	if x == nil {
+		return
+	}
+	keys := append([]int{noField}, e.fields[x]...)
+	for _, f := range keys {
+		src := e.contents[objField{x, f}]
+		if len(src) == 0 {
+			continue
+		}
+		t := rootSet{}
+		e.subst(src, call, w, t)
+		e.growContents(call, f, t)
+	}
+}
+
 func (e *provEngine) solve() {
+	if e.wrappers == nil {
+		e.findWrappers()
+	}
 	for {
 		e.changed = false
 		e.reachMemo = nil
@@ -1216,6 +1366,9 @@ func (e *provEngine) solve() {
 		for _, fn := range e.fns {
 			for _, b := range fn.Blocks {
 				for _, in := range b.Instrs {
+					if cl, ok := in.(*ssa.Call); ok && len(e.wrappers) > 0 {
+						e.wrapperTransfer(cl)
+					}
 					if v, ok := in.(ssa.Value); ok {
 						s := e.eval(v)
 						if len(s) > 0 {
